@@ -179,6 +179,8 @@ def rdp_oracle(case, res):
 def locally_collinear(pairs, kept):
     """Every removed interior point lies within TOL (in T) of the chord of its two ORIGINAL neighbours — the only test
     clean_composite_curve applies, which lets a slowly bending run drift away point by point."""
+    # exactly repeated points are removed first (fix bdc25b9): a lost corner behind a repeated point is NOT drift
+    pairs = [p for i, p in enumerate(pairs) if i == 0 or p != pairs[i - 1]]
     for i in range(1, len(pairs) - 1):
         if pairs[i] in kept:
             continue
